@@ -293,6 +293,19 @@ Section LookupX.
         end
     end.
 
+  (** Config.GetCertificateWithContext: an event handler may abort the handshake
+      ("tls_get_certificate"); a ClientHello with a server name whose only ALPN protocol is
+      "acme-tls/1" (the literal comes from the source: Gen.Consts.acme_tls1_protocol) asks for the
+      TLS-ALPN challenge certificate -- here: no challenge is in progress, which is an error, never
+      a certificate of the cache; everything else is [lookup_x] *)
+  Definition acme_tls_alpn (sni : str) (protos : list str) : bool :=
+    negb (is_nil sni) && strs_eqb protos [acme_tls1_protocol].
+  Definition get_certificate (abort : bool) (protos : list str)
+             (conn : bool) (s : state) (cap : nat) (cfg : config) (sni localip : str) (e : envx) : result * state :=
+    if abort then (RErr, s)
+    else if acme_tls_alpn sni protos then (RErr, s)
+    else lookup_x conn s cap cfg sni localip e.
+
   (** the environment of [lookup] that corresponds to an extended one *)
   Definition env_of (cfg : config) (localip : str) (e : envx) : env :=
     match hello_name cfg localip (x_idna e) with
